@@ -49,6 +49,7 @@ def check(src, rep):
                        "NOT decided: the composition into 'valid iff ...' over all readouts.")
     init = C.methods["__init__"]
     _history_independence(rep, M, C, file)
+    _correct_catalogue(rep, M, C, file)
     E0 = Engine(M, split_ifexp=True)
     pi = [p for p in E0.run(init) if p.status == "run"]
     rep.require(len(pi) == 1, "DataReadout.__init__ has no unique non-raising path")
@@ -156,6 +157,37 @@ def _ref_crc16(b):
         for _ in range(8):
             crc = (crc >> 1) ^ 0xA001 if crc & 1 else crc >> 1
     return crc
+
+
+def _correct_catalogue(rep, M, C, file):
+    """correct readouts of every shape the format allows are reported valid: the constructor and is_valid interpreted (E-ABS) on concrete readouts whose
+    checksum is computed by the checker's own CRC-16 (data blocks shrinking down to nothing, upper and lower case checksum digits)"""
+    from sa.abseval import AbsEval, AbsRaise
+    fnv = C.methods["is_valid"]
+    n = 0
+    for ident in (b"/LGF5E360", b"/ABC5x"):
+        for data in (b"\r\n0-0:1.0.0(210222161900W)\r\n1-0:1.7.0(0000.350*kW)\r\n", b"\r\n1-0:1.7.0(0)\r\n", b"1-0:1.7.0(0)\r\n", b"\r\n", b""):
+            for lower in (False, True):
+                body = ident + b"\r\n" + data + b"!"
+                text = b"%04X" % _ref_crc16(body)
+                raw = body + (text.lower() if lower else text) + b"\r\n"
+                A = AbsEval(M)
+                try:
+                    obj = A.instantiate(CLS, [raw])
+                    r = A.apply(fnv, [obj])
+                except AbsRaise as ex:
+                    r = ("raise", ex.cls)
+                except Exception as ex:  # noqa
+                    r = ("undecided", f"{type(ex).__name__}: {ex}")
+                if r[0] in ("undecided", "branch"):
+                    rep.undecide(f"R3 correct readouts: DataReadout / is_valid outside the interpreted subset on {raw!r}: {r[1]}"[:300])
+                    return
+                n += 1
+                if r != ("value", True):
+                    rep.violation("R3", f"{MOD}.DataReadout.is_valid", "rejects-correct", "a well-formed readout whose checksum is the CRC-16 of '/'..'!' is not reported valid", file, fnv.node.lineno,
+                                  witness=f"{raw!r}: {r[0]} {r[1]!r}"[:240])
+                    return
+    rep.ok("R3", "correct readouts", f"{n} concrete well-formed readouts (data block from two lines down to nothing, checksum digits in both cases) are reported valid (constructor and is_valid interpreted, E-ABS)")
 
 
 def _history_independence(rep, M, C, file):
